@@ -1623,3 +1623,173 @@ func (c *Ctx) ruleWidthDecode(rule string, in func(*ssa.Function) bool) int {
 	}
 	return n
 }
+
+// minLenAt: what the conditions dominating blk establish about the length of
+// the slice root (a lower bound), and whether some other test of the length
+// dominates that the rule does not evaluate.
+func (c *Ctx) minLenAt(fn *ssa.Function, blk *ssa.BasicBlock, root ssa.Value) (lb int64, other bool) {
+	rootPath := ir.AccessPath(root)
+	var lenVal ssa.Value
+	if ms, isMS := root.(*ssa.MakeSlice); isMS {
+		lenVal = ir.StripConv(ms.Len)
+	}
+	for _, ce := range ir.DominatingConds(fn, blk) {
+		bo, isB := ce.Cond.(*ssa.BinOp)
+		if !isB {
+			continue
+		}
+		isLen := func(v ssa.Value) bool {
+			v = ir.StripConv(v)
+			if lc, ok := v.(*ssa.Call); ok && ir.CallID(lc) == "builtin.len" {
+				return ir.AccessPath(ir.StripConv(lc.Call.Args[0])) == rootPath && rootPath != ""
+			}
+			return lenVal != nil && v == lenVal
+		}
+		op := bo.Op
+		var k int64
+		switch {
+		case isLen(bo.X):
+			kk, isK := ir.ConstInt(ir.StripConv(bo.Y))
+			if !isK {
+				other = true
+				continue
+			}
+			k = kk
+		case isLen(bo.Y):
+			kk, isK := ir.ConstInt(ir.StripConv(bo.X))
+			if !isK {
+				other = true
+				continue
+			}
+			k = kk
+			op = flip(op)
+		default:
+			continue
+		}
+		if !ce.Truth {
+			op = negate(op)
+		}
+		switch op {
+		case token.GEQ, token.EQL:
+			if k > lb {
+				lb = k
+			}
+		case token.GTR:
+			if k+1 > lb {
+				lb = k + 1
+			}
+		}
+	}
+	return lb, other
+}
+
+// ruleArrayConversion (T9): converting a slice to an array (or array pointer)
+// panics when the slice is shorter than the array. A slice whose length comes
+// from input needs a dominating test of its length.
+func (c *Ctx) ruleArrayConversion(rule string, in func(*ssa.Function) bool) int {
+	n := 0
+	counts := map[string]int{}
+	for _, fn := range c.P.LibFunctions() {
+		if in != nil && !in(fn) {
+			continue
+		}
+		fn := fn
+		instrsOf(fn, func(i ssa.Instruction) {
+			cv, ok := i.(*ssa.SliceToArrayPointer)
+			if !ok {
+				return
+			}
+			arr, isArr := cv.Type().Underlying().(*types.Pointer).Elem().Underlying().(*types.Array)
+			if !isArr {
+				return
+			}
+			root := ir.StripConv(cv.X)
+			if sl, isSl := root.(*ssa.Slice); isSl && sl.High != nil {
+				if hk, isK := ir.ConstInt(sl.High); isK {
+					lo := int64(0)
+					if sl.Low != nil {
+						lo, _ = ir.ConstInt(sl.Low)
+					}
+					if hk-lo >= arr.Len() {
+						return // the reslice has the length (and panics itself if it cannot)
+					}
+				}
+			}
+			n++
+			key := ordinalKey(counts, name(fn)+":arrayconv")
+			construct := strings.TrimPrefix(key, name(fn)+":")
+			lb, other := c.minLenAt(fn, cv.Block(), root)
+			what := "a slice is converted to an array only where it is known to be long enough"
+			switch {
+			case lb >= arr.Len():
+				c.R.Okf(rule, name(fn), construct, c.IPos(cv), what)
+			case other:
+				c.R.Infof(rule, name(fn), construct, c.IPos(cv), "not decided for this shape: the length of the converted slice is tested against something that is not a constant")
+			default:
+				if _, isP := root.(*ssa.Parameter); isP {
+					c.R.Infof(rule, name(fn), construct, c.IPos(cv), "not decided for this shape: the converted slice is a parameter; its length is the callers' business")
+					return
+				}
+				c.R.Violf(rule, name(fn), construct, c.IPos(cv), what, fmt.Sprintf("%s is converted to [%d]byte and nothing on the way establishes len >= %d (known: >= %d): a shorter value panics", ir.AccessPath(root), arr.Len(), arr.Len(), lb))
+			}
+		})
+	}
+	return n
+}
+
+// ruleDivisor (T10): an integer division or remainder by a value read from
+// input needs a dominating test that the divisor is not zero.
+func (c *Ctx) ruleDivisor(rule string, in func(*ssa.Function) bool) int {
+	t := c.taint()
+	n := 0
+	counts := map[string]int{}
+	for _, fn := range c.P.LibFunctions() {
+		if in != nil && !in(fn) {
+			continue
+		}
+		fn := fn
+		instrsOf(fn, func(i ssa.Instruction) {
+			bo, ok := i.(*ssa.BinOp)
+			if !ok || bo.Op != token.QUO && bo.Op != token.REM || !isNumeric(bo.Type()) {
+				return
+			}
+			if b, isBasic := bo.Type().Underlying().(*types.Basic); !isBasic || b.Info()&types.IsInteger == 0 {
+				return
+			}
+			d := ir.StripConv(bo.Y)
+			if _, isK := d.(*ssa.Const); isK || t.Why(bo.Y) == "" {
+				return
+			}
+			n++
+			key := ordinalKey(counts, name(fn)+":div")
+			construct := strings.TrimPrefix(key, name(fn)+":")
+			dp := resolvedPath(bo.Y)
+			nonZero := false
+			for _, g := range c.guardFacts(fn, bo.Block()) {
+				op := g.cmp.Op
+				if !g.truth {
+					op = negate(op)
+				}
+				x, y := g.cmp.X, g.cmp.Y
+				if resolvedPath(y) == dp {
+					x, y = y, x
+					op = flip(op)
+				}
+				if resolvedPath(x) != dp {
+					continue
+				}
+				k, isK := ir.ConstInt(ir.StripConv(y))
+				if !isK {
+					continue
+				}
+				switch {
+				case op == token.NEQ && k == 0, op == token.GTR && k >= 0, op == token.GEQ && k >= 1, op == token.EQL && k != 0:
+					nonZero = true
+				}
+			}
+			c.R.Check(nonZero, rule, name(fn), construct, c.IPos(bo), "a divisor read from input is tested to be non-zero before the division",
+				"the divisor "+dp+" comes from input ("+t.Why(bo.Y)+") and no dominating comparison excludes zero: integer divide by zero")
+		})
+	}
+	return n
+}
